@@ -90,12 +90,14 @@ Fixpoint take_faces (n : nat) (l : list nat) : option (list (list nat)) :=
 Definition parse_faces (dat : list nat) : option (list (list nat)) :=
   match dat with n :: tl => take_faces n tl | [] => None end.
 (* volume of a polyhedron cell: faces index nodes.data by STORAGE position *)
-Definition poly_volume {T} (O : Ops T) (centroid : bool) (coords : list (v3 T)) (dat : list nat)
-  : option T :=
+Definition poly_volume {T} (O : Ops T) (local_origin centroid : bool) (coords : list (v3 T))
+           (dat : list nat) : option T :=
   match parse_faces dat with
   | Some faces =>
       match select_faces coords faces with
-      | Some fs => Some (if centroid then polyhedron_vol_centroid O fs else polyhedron_vol_fan O fs)
+      | Some fs0 =>
+          let fs := shift_faces_if O local_origin fs0 in
+          Some (if centroid then polyhedron_vol_centroid O fs else polyhedron_vol_fan O fs)
       | None => None
       end
   | None => None
